@@ -169,7 +169,7 @@ fn make_ctx(variant: usize) -> Ctx {
     c.set_function(
         "slow".into(),
         Function::new(|v: &Value| {
-            spin(300);
+            spin(2500);
             Ok(v.clone())
         }),
     )
@@ -208,7 +208,7 @@ fn make_ctx(variant: usize) -> Ctx {
     c.set_function(
         "zsign".into(),
         Function::new(|v: &Value| {
-            spin(200);
+            spin(1500);
             Ok(Value::String(format!("{:?}", v)))
         }),
     )
